@@ -283,6 +283,13 @@ func runPool(sc *bufio.Scanner, out *bufio.Writer) {
 				} else {
 					fmt.Fprintf(out, "next %s ; %s\n", res, snapLine(s))
 				}
+			case "endpoint": // endpoint <id>: serve /metrics through the repo's web server and compare
+				s := pools[f[1]]
+				if s == nil {
+					fmt.Fprintf(out, "nopool\n")
+					return
+				}
+				fmt.Fprintf(out, "endpoint %s\n", endpointCheck(s))
 			default:
 				fmt.Fprintf(out, "badcase unknown op %s\n", f[0])
 			}
